@@ -314,18 +314,19 @@ class ScoringScheme:
         pen2: List[List[float]] = other.penalty_vectors
         pen1: List[List[float]] = self._penalty_vectors
         coefficient: float = float("nan")
-        for i in range(stop):
-            if pen1[0][i] == 0:
-                if pen2[0][i] != 0:
-                    return False
-            else:
-                if pen2[0][i] == 0:
-                    return False
-                if isnan(coefficient):
-                    coefficient = pen1[0][i] / pen2[0][i]
-                else:
-                    if pen1[0][i] / pen2[0][i] != coefficient:
+        for vec in range(2):
+            for i in range(stop):
+                if pen1[vec][i] == 0:
+                    if pen2[vec][i] != 0:
                         return False
+                else:
+                    if pen2[vec][i] == 0:
+                        return False
+                    if isnan(coefficient):
+                        coefficient = pen1[vec][i] / pen2[vec][i]
+                    else:
+                        if pen1[vec][i] / pen2[vec][i] != coefficient:
+                            return False
         return True
 
     def get_nickname(self) -> str:
